@@ -11,6 +11,7 @@ PROPERTY MC_IssuedWithinEntitlement
 INVARIANT C02_Converged
 INVARIANT C04_KeysHaveCerts
 INVARIANT C04_PubKeysMatch
+VIEW CoreView
 CHECK_DEADLOCK FALSE
 CONSTANTS
   Res = {"p1", "a1"}
